@@ -951,6 +951,243 @@ theorem resource_filter_applied (esc : Bytes → Bytes) (sc : Scenario) (s : Sco
   · intro kv; simp [constRes, List.mem_filter]
   · intro h; simp [constRes, h]
 
+/-- The final family name for EVERY option list, in one statement: for any options given to New (any order,
+repetitions, reader/registerer options in between), any name, unit and type, the exposed family name is
+`namespace ++ core ++ unit part ++ total part`, where, with `n` the (legacy: escaped) instrument name,
+* counter suffixes are in force iff the instrument is a monotonic sum and WithoutCounterSuffixes does not occur; only
+  then one trailing `total` and one trailing delimiter are taken off `n` (`core`) and `_total` is appended at the very end;
+* the unit part is `_<suffix>` iff the unit is in the table, WithoutUnits does not occur, and `namespace ++ core` does not
+  already end with the suffix;
+* the namespace is the processed argument of the last WithNamespace (`newConfig_last_wins`), empty if there is none.
+No other option influences the name. -/
+theorem familyName_of_options (esc : Bytes → Bytes) (legacy : Bool) (opts : List Opt) (name unit : Bytes) (typ : MType)
+    (res : List KV) (scopes : List Scope) :
+    let cfg := (Scenario.ofConfig legacy (newConfig esc legacy opts) res scopes).cfg
+    let n := if legacy then esc name else name
+    let addT := typ == MType.counter && !opts.contains Opt.withoutCounterSuffixes
+    let core := if addT then Spec.stripDelim (Spec.stripTotal n) else n
+    let pre := (newConfig esc legacy opts).ns ++ core
+    let unitPart := match unitSuffix unit with
+      | some s => if !opts.contains Opt.withoutUnits && !Spec.endsWith pre s then b "_" ++ s else []
+      | none => []
+    getName esc cfg name unit typ = some (pre ++ unitPart ++ (if addT then b "_total" else [])) := by
+  obtain ⟨_, hu, hc, _⟩ := newConfig_flags esc legacy opts
+  simp only
+  rw [getName_shape]
+  simp only [Spec.refName, Spec.core, Spec.unitPart, Spec.totalPart, Spec.addsTotal, Scenario.ofConfig, hu, hc]
+  cases unitSuffix unit <;> rfl
+
+/-- Exemplar labels (addExemplars + attributesToLabels): whatever the filtered attributes are — also attributes named
+`trace_id` / `span_id`, or escaping to them — the exemplar's `trace_id` and `span_id` labels are the hex ids of the
+measurement's span context; every other label name is the ESCAPED key of a filtered attribute (always escaped, in both
+validation schemes) and carries the value of the LAST attribute with that escaped key. -/
+theorem exemplar_labels_spec (esc : Bytes → Bytes) (e : Exemplar) :
+    (exemplarLabels esc e).lookup (b "trace_id") = some e.traceId ∧
+    (exemplarLabels esc e).lookup (b "span_id") = some e.spanId ∧
+    ∀ k, k ≠ b "trace_id" → k ≠ b "span_id" →
+      (exemplarLabels esc e).lookup k = (e.attrs.map fun kv => (esc kv.1, kv.2)).reverse.lookup k := by
+  unfold exemplarLabels
+  have h1 : (b "trace_id" == b "span_id") = false := by decide
+  refine ⟨?_, ?_, ?_⟩
+  · simp [setLabel_lookup, h1]
+  · simp [setLabel_lookup]
+  · intro k hk1 hk2
+    have e1 : (k == b "trace_id") = false := by simpa using hk1
+    have e2 : (k == b "span_id") = false := by simpa using hk2
+    simp only [setLabel_lookup, e1, e2, Bool.false_eq_true, if_false, setLabel_fold_lookup, List.lookup_nil, Option.or_none]
+
+/-- The 128-rune limit as a budget: an exemplar is attached only if its label names and values together hold at most 128
+runes; the two ids of a sampled span context (32 + 16 hex digits) and their names cost 63 of them, which leaves 65 runes
+for the names and values of all filtered attributes together — one rune more and every exemplar of the series is
+refused (the series itself is never affected: `emitPoint_value_indep_exemplars`). -/
+theorem exemplar_rune_budget (legacy : Bool) (labels : List KV) (h : exemplarOK legacy labels = true) :
+    labelRunes labels ≤ 128 ∧ labelRunes [(b "trace_id", List.replicate 32 48), (b "span_id", List.replicate 16 48)] = 63 := by
+  unfold exemplarOK at h
+  simp only [Bool.and_eq_true, decide_eq_true_eq] at h
+  exact ⟨h.2, by decide⟩
+
+/-! ### the oracle's scope admissibility predicate coincides with the model's refusal of the scope info metric -/
+
+/-- UTF-8 scheme, exact coincidence: with scope info enabled, a scope (valid UTF-8 name and version, scope attribute keys
+distinct — attribute.Set) is skipped by Collect iff it is not `Spec.scopeExposable`, i.e. iff one of its attributes that the
+scope's name/version do not overwrite has a key the registry refuses as label name or a value that is not valid UTF-8. An
+attribute named like a scope label never matters: it is overwritten before the metric is built. -/
+theorem scope_exposable_iff_not_skipped_utf8 (esc : Bytes → Bytes) (sc : Scenario) (s : Scope)
+    (hl : sc.cfg.legacy = false) (hns : sc.noScope = false)
+    (hn : Utf8.validString s.name = true) (hv : Utf8.validString s.version = true)
+    (hnd : (s.attrs.map (·.1)).Nodup) :
+    scopeSkipped esc sc s = !Spec.scopeExposable esc sc s := by
+  obtain ⟨c1, c2, c3⟩ := scopeInfoAttrs_complete s hnd
+  have hNl : labelNameOK false scopeNameLabel = true := by decide
+  have hVl : labelNameOK false scopeVersionLabel = true := by decide
+  have hname : metricNameOK false (b "otel_scope_info") = true := by decide
+  have key : metricOK false (b "otel_scope_info") (scopeInfoAttrs s.key) =
+      (Spec.scopeOwnAttrs s).all (fun kv => labelNameOK false kv.1 && Utf8.validString kv.2) := by
+    rw [Bool.eq_iff_iff]
+    unfold metricOK descOK valuesOK
+    simp only [Bool.and_eq_true, List.all_eq_true, hname, true_and]
+    constructor
+    · rintro ⟨⟨h1, _⟩, h2⟩ kv hkv
+      exact ⟨h1 kv (c3 kv hkv), h2 kv (c3 kv hkv)⟩
+    · intro h
+      refine ⟨⟨?_, (nodupKeys_iff _).mpr (scopeInfoAttrs_nodup s.key)⟩, ?_⟩
+      · intro kv hkv
+        rcases scopeInfoAttrs_mem s kv hkv with rfl | rfl | hm
+        · exact hNl
+        · exact hVl
+        · exact (h kv hm).1
+      · intro kv hkv
+        rcases scopeInfoAttrs_mem s kv hkv with rfl | rfl | hm
+        · exact hn
+        · exact hv
+        · exact (h kv hm).2
+  unfold scopeSkipped scopeInfoMetric scopeInfoOfKey Spec.scopeExposable
+  simp only [hns, hl, Bool.not_false, Bool.true_and, Bool.false_or, getAttrs, Bool.false_eq_true, if_false, key,
+    Spec.effEsc, id]
+  cases (Spec.scopeOwnAttrs s).all (fun kv => labelNameOK false kv.1 && Utf8.validString kv.2) <;> simp
+
+/-- Legacy scheme, coincidence for well-formed values: when the scope's name, version and all scope attribute values are
+valid UTF-8 and the escape function leaves the two scope label names legal (true for underscore escaping:
+`escUnderscore_keeps_scope_labels`), a scope is skipped iff it is not `Spec.scopeExposable`, i.e. iff one of its own
+attribute keys escapes to something the registry refuses as a legacy label name (a `:`; a leading `__`). Colliding keys
+are merged, never refused. (Not covered here, oracle-only: legacy scheme with an invalid UTF-8 scope attribute value.) -/
+theorem scope_exposable_iff_not_skipped_legacy (esc : Bytes → Bytes) (sc : Scenario) (s : Scope)
+    (hl : sc.cfg.legacy = true) (hns : sc.noScope = false)
+    (hn : Utf8.validString s.name = true) (hv : Utf8.validString s.version = true)
+    (hvals : ∀ kv ∈ s.attrs, Utf8.validString kv.2 = true)
+    (hnd : (s.attrs.map (·.1)).Nodup)
+    (hN : labelNameOK true (esc scopeNameLabel) = true) (hV : labelNameOK true (esc scopeVersionLabel) = true) :
+    scopeSkipped esc sc s = !Spec.scopeExposable esc sc s := by
+  obtain ⟨c1, c2, c3⟩ := scopeInfoAttrs_complete s hnd
+  have hname : metricNameOK true (b "otel_scope_info") = true := by decide
+  have hspec := attrs_merge_spec esc (scopeInfoAttrs s.key) _ (List.Perm.refl _)
+  unfold Spec.labelsMerged at hspec
+  simp only [Bool.and_eq_true, List.all_eq_true] at hspec
+  obtain ⟨⟨_, hval⟩, hcov⟩ := hspec
+  have hLvalid : ∀ kv ∈ scopeInfoAttrs s.key, Utf8.validString kv.2 = true := by
+    intro kv hkv
+    rcases scopeInfoAttrs_mem s kv hkv with rfl | rfl | hm
+    · exact hn
+    · exact hv
+    · exact hvals kv (List.mem_filter.mp hm).1
+  have key : metricOK true (b "otel_scope_info") (getAttrsLegacy esc (scopeInfoAttrs s.key)) =
+      (Spec.scopeOwnAttrs s).all (fun kv => labelNameOK true (esc kv.1) && Utf8.validString kv.2) := by
+    rw [Bool.eq_iff_iff]
+    unfold metricOK descOK valuesOK
+    simp only [Bool.and_eq_true, List.all_eq_true, hname, true_and]
+    constructor
+    · rintro ⟨⟨h1, _⟩, _⟩ kv hkv
+      refine ⟨?_, hvals kv (List.mem_filter.mp hkv).1⟩
+      have hc := hcov kv (c3 kv hkv)
+      obtain ⟨lab, hlab, he⟩ := List.mem_map.mp (List.contains_iff_mem.mp hc)
+      have := h1 lab hlab
+      rw [he] at this; exact this
+    · intro h
+      refine ⟨⟨?_, (nodupKeys_iff _).mpr (attrs_keys_nodup esc _)⟩, ?_⟩
+      · intro lab hlab
+        obtain ⟨kv, hkv, he⟩ := (getAttrs_keys esc true (scopeInfoAttrs s.key) (Or.inl rfl)).2 lab.1
+          (List.mem_map.mpr ⟨lab, by simpa [getAttrs] using hlab, rfl⟩)
+        simp only [Spec.effEsc, if_true] at he
+        rw [← he]
+        rcases scopeInfoAttrs_mem s kv hkv with rfl | rfl | hm
+        · exact hN
+        · exact hV
+        · exact (h kv hm).1
+      · intro lab hlab
+        have hm := hval lab hlab
+        unfold Spec.mergedValue at hm
+        simp only at hm
+        split at hm
+        · simp at hm
+        · have e : joinSemi (sortBytes (Spec.groupVals esc (scopeInfoAttrs s.key) lab.1)) = lab.2 := by
+            simpa using hm
+          rw [← e]
+          apply joinSemi_valid
+          intro v hvm
+          have hv2 := (sortBytes_perm _).mem_iff.mp hvm
+          unfold Spec.groupVals at hv2
+          obtain ⟨kv, hkv, rfl⟩ := List.mem_map.mp hv2
+          exact hLvalid kv (List.mem_filter.mp hkv).1
+  unfold scopeSkipped scopeInfoMetric scopeInfoOfKey Spec.scopeExposable
+  simp only [hns, hl, Bool.not_false, Bool.true_and, Bool.false_or, getAttrs, if_true, key, Spec.effEsc]
+  cases (Spec.scopeOwnAttrs s).all (fun kv => labelNameOK true (esc kv.1) && Utf8.validString kv.2) <;> simp
+
+/-- the concrete escape function keeps the two scope label names legal (hypotheses of the legacy coincidence theorem) -/
+theorem escUnderscore_keeps_scope_labels :
+    labelNameOK true (escUnderscore scopeNameLabel) = true ∧ labelNameOK true (escUnderscore scopeVersionLabel) = true := by
+  decide
+
+/-! ### concurrent scrapes: interleavings of the locked regions -/
+
+/-- the validateMetrics calls of a schedule, in lock order -/
+def valOps : List Act → List Spec.Op
+  | [] => []
+  | .validate n d t :: rest => (n, d, t) :: valOps rest
+  | _ :: rest => valOps rest
+
+/-- Linearisation of concurrent scrapes. Collect touches the collector's caches only inside three critical sections of
+`c.mu` (harness/extract/C18/collector.txt, compared with the source on every run): the init block, scopeInfo and
+validateMetrics. For EVERY schedule — the locked regions of any number of concurrent Collect calls, over any data, in
+the order in which they won the lock — starting from New(): every region returns what the schedule-independent reading
+`refRets` returns, the cache invariant holds afterwards, and the family table is the one `refRets` computes. Hence the
+init block and scopeInfo behave as pure functions (memoisation cannot be observed under any interleaving), and
+validateMetrics is the only region whose answer depends on the schedule — through the earlier validateMetrics calls. -/
+theorem locked_regions_linearise (esc : Bytes → Bytes) (sc : Scenario) (acts : List Act) :
+    (runActs esc sc (CState.init sc) acts).1 = (refRets esc sc [] acts).1 ∧
+    (runActs esc sc (CState.init sc) acts).2.fams = (refRets esc sc [] acts).2 ∧
+    CInv esc sc (runActs esc sc (CState.init sc) acts).2 :=
+  runActs_spec esc sc acts _ (CInv.init esc sc)
+
+/-- … what the schedule-independent answers are: at whatever position of whatever schedule, scopeInfo(s) answers
+createScopeInfoMetric(s) (never another scope's metric, never a stale refusal), and the init block answers with the target
+info metric exactly as configured and the filtered resource labels. -/
+theorem cache_answers_schedule_independent (esc : Bytes → Bytes) (sc : Scenario) :
+    ∀ (acts : List Act) (fams : List Fam), ∀ ar ∈ acts.zip (refRets esc sc fams acts).1,
+      (∀ s, ar.1 = Act.scopeInfo s → ar.2 = Ret.info (scopeInfoMetric esc sc.cfg.legacy s)) ∧
+      (ar.1 = Act.init → ar.2 = Ret.top
+        (if !sc.noTarget && metricOK sc.cfg.legacy (b "target_info") (getAttrs esc sc.cfg.legacy sc.res)
+          then [targetInfoMetric esc sc] else [])
+        (if sc.resConst then getAttrs esc sc.cfg.legacy (constRes sc) else [])) := by
+  intro acts
+  induction acts with
+  | nil => intro fams ar h; simp [refRets] at h
+  | cons a rest ih =>
+    intro fams ar h
+    cases a with
+    | init =>
+      simp only [refRets, List.zip_cons_cons, List.mem_cons] at h
+      rcases h with rfl | h
+      · exact ⟨fun s hs => (by simp at hs), fun _ => rfl⟩
+      · exact ih fams ar h
+    | scopeInfo s0 =>
+      simp only [refRets, List.zip_cons_cons, List.mem_cons] at h
+      rcases h with rfl | h
+      · exact ⟨fun s hs => (by simp only [Act.scopeInfo.injEq] at hs; subst hs; rfl), fun hs => (by simp at hs)⟩
+      · exact ih fams ar h
+    | validate n d t =>
+      simp only [refRets, List.zip_cons_cons, List.mem_cons] at h
+      rcases h with rfl | h
+      · exact ⟨fun s hs => (by simp at hs), fun hs => (by simp at hs)⟩
+      · exact ih _ ar h
+
+/-- … and the family table after any schedule is the table of the SEQUENTIAL history of its validateMetrics calls in
+lock order (`Spec.famsAfter`): the conflict theorems (`type_conflict_drops_second`, `help_conflict_first_wins`) apply to
+concurrent scrapes with "first" meaning first to take the lock. -/
+theorem family_table_is_lock_order_history (esc : Bytes → Bytes) (sc : Scenario) :
+    ∀ (acts : List Act) (fams : List Fam), (refRets esc sc fams acts).2 = Spec.famsAfter fams (valOps acts) := by
+  intro acts
+  induction acts with
+  | nil => intro fams; rfl
+  | cons a rest ih =>
+    intro fams
+    cases a with
+    | init => simp only [refRets, valOps]; exact ih fams
+    | scopeInfo s => simp only [refRets, valOps]; exact ih fams
+    | validate n d t =>
+      simp only [refRets, valOps]
+      rw [ih]
+      simp [Spec.famsAfter]
+
 /-- F34 (repaired in de0451a), documented on the OLD code: `validateMetricsOld` answered a description conflict whose
 first description is empty with help "", which the old call site read as "no conflict" — the second series kept its own
 help "second" although the family was registered with "". -/
@@ -1173,5 +1410,26 @@ example : newConfig escUnderscore true [.withNamespace (b "a"), .withoutUnits, .
     { withoutUnits := true, ns := b "my_ns_", resFilter := some [b "r.a"] } := by decide
 example : constRes (Scenario.ofConfig false (newConfig escUnderscore false [.withResourceAsConstantLabels [b "r.a"]])
       [(b "r.a", b "1"), (b "service.name", b "svc")] []) = [(b "service.name", b "svc")] := by decide
+
+-- two concurrent scrapes whose locked regions interleave (A.init B.init A.scopeInfo B.scopeInfo(other scope) A.validate B.validate):
+-- answers are those of the sequential reading
+example : (runActs escUnderscore exSeqBase (CState.init exSeqBase)
+      [.init, .init, .scopeInfo exScopeA, .scopeInfo exScopeB, .scopeInfo exScopeA, .validate (b "a_total") (b "d1") .counter,
+       .validate (b "a_total") (b "d2") .counter]).1.length = 7 ∧
+    valOps [Act.init, .validate (b "a") [] .gauge, .scopeInfo exScopeA] = [(b "a", [], MType.gauge)] := by decide
+
+-- family name over option lists: WithoutUnits twice, two namespaces, a reader option in between
+example : getName escUnderscore (Scenario.ofConfig true (newConfig escUnderscore true
+      [.withNamespace (b "x"), .withoutUnits, .other, .withNamespace (b "my.ns"), .withoutUnits]) [] []).cfg
+      (b "http.duration.total") (b "s") MType.counter = some (b "my_ns_http_duration_total") := by decide
+-- an attribute named trace_id cannot spoof the exemplar's trace id; a later attribute with the same escaped key wins
+example : sortKV (exemplarLabels escUnderscore ⟨4, [(b "trace_id", b "spoof"), (b "a.b", b "1"), (b "a_b", b "2")], b "aa", b "bb"⟩) =
+    [(b "a_b", b "2"), (b "span_id", b "bb"), (b "trace_id", b "aa")] := by decide
+
+-- coincidence, both sides non-trivial: `__reserved` is refused, an attribute named otel_scope_name with an invalid value is harmless
+example : scopeSkipped escUnderscore exSeqBase { exScopeA with attrs := [(b "__reserved", b "x")] } = true ∧
+    Spec.scopeExposable escUnderscore exSeqBase { exScopeA with attrs := [(b "__reserved", b "x")] } = false ∧
+    scopeSkipped escUnderscore exSeqBase { exScopeA with attrs := [(b "otel_scope_name", [255])] } = false ∧
+    Spec.scopeExposable escUnderscore exSeqBase { exScopeA with attrs := [(b "otel_scope_name", [255])] } = true := by decide
 
 end Otel.C18
